@@ -57,6 +57,21 @@ fn default_chans() -> Vec<Chan> {
 
 const SIZES: &[usize] = &[0, 1, 2, 17, 63, 64, 500, 1185, 1189, 1190, 1191, 1195, 1199, 1200, 1201, 1202, 2399, 2400, 2401, 3600, 3601, 4799, 6000];
 
+fn rand_msg(rng: &mut Rng, cap: usize) -> Vec<u8> {
+    let n = gen_size(rng).min(cap);
+    rng.payload(n)
+}
+
+fn rand_small(rng: &mut Rng, below: u64) -> Vec<u8> {
+    let n = rng.below(below) as usize;
+    rng.payload(n)
+}
+
+fn rand_bytes(rng: &mut Rng, below: u64) -> Vec<u8> {
+    let n = rng.below(below) as usize;
+    rng.bytes(n)
+}
+
 fn gen_size(rng: &mut Rng) -> usize {
     match rng.below(10) {
         0..=3 => rng.below(200) as usize,
@@ -241,6 +256,564 @@ fn keep_cfg(ops: &[String]) -> usize {
         }
     }
     k
+}
+
+
+// ---------------------------------------------------------------------------------------------
+// E3: hostile packets injected into live sessions; second healthy connection on the same server
+// ---------------------------------------------------------------------------------------------
+fn varint(v: u64) -> Vec<u8> {
+    if v <= 63 {
+        vec![v as u8]
+    } else if v <= 16383 {
+        let x = (v as u16) | 0x4000;
+        x.to_be_bytes().to_vec()
+    } else if v <= 1_073_741_823 {
+        let x = (v as u32) | 0x8000_0000;
+        x.to_be_bytes().to_vec()
+    } else {
+        let x = (v & 0x3fff_ffff_ffff_ffff) | 0xc000_0000_0000_0000;
+        x.to_be_bytes().to_vec()
+    }
+}
+
+/// a field-targeted hostile packet for one of the given channel ids
+fn hostile_packet(rng: &mut Rng, chans: &[u8]) -> Vec<u8> {
+    let fields: &[u64] = &[0, 1, 2, 3, 5, 63, 64, 999_999, 1_000_000, 1_000_001, (1 << 30) - 1, 1 << 30, (1u64 << 62) - 1];
+    let seq = if rng.chance(1, 2) { rng.below(50) } else { rng.pick(fields) };
+    let ch = if rng.chance(5, 6) && !chans.is_empty() { rng.pick(chans) } else { rng.pick(&[0u8, 1, 2, 9, 255]) };
+    let mut b = vec![];
+    match rng.below(6) {
+        0 | 1 => {
+            // slice (reliable or unreliable) with boundary index / count / payload length
+            b.push(if rng.chance(1, 2) { 2 } else { 3 });
+            b.extend(varint(seq));
+            b.push(ch);
+            b.extend(varint(if rng.chance(2, 3) { rng.below(4) } else { rng.pick(fields) })); // message id
+            let n = rng.pick(&[1u64, 2, 3, 4, 5, 1000, 4000, 1_000_000, 0, 1_000_001]);
+            let idx = match rng.below(4) {
+                0 => n.saturating_sub(1),
+                1 => n,
+                2 => rng.below(n.max(1)),
+                _ => rng.pick(fields),
+            };
+            b.extend(varint(idx));
+            b.extend(varint(n));
+            let l = rng.pick(&[0usize, 1, 10, 1199, 1200, 1200, 1201]);
+            b.extend(varint(l as u64));
+            b.extend(rng.payload(l));
+        }
+        2 => {
+            // small reliable with boundary ids, duplicate ids, huge announced count
+            b.push(0);
+            b.extend(varint(seq));
+            b.push(ch);
+            let n = rng.pick(&[0u16, 1, 2, 3, 65535]);
+            b.extend(n.to_be_bytes());
+            for _ in 0..n.min(4) {
+                b.extend(varint(if rng.chance(1, 2) { rng.below(4) } else { rng.pick(fields) }));
+                let l = rng.pick(&[0usize, 1, 100, 1200]);
+                b.extend(varint(l as u64));
+                b.extend(rng.payload(l));
+            }
+        }
+        3 => {
+            b.push(1);
+            b.extend(varint(seq));
+            b.push(ch);
+            let n = rng.pick(&[0u16, 1, 2, 600]);
+            b.extend(n.to_be_bytes());
+            for _ in 0..n.min(3) {
+                let l = rng.pick(&[0usize, 1, 100, 1200, 1290]);
+                b.extend(varint(l as u64));
+                b.extend(rng.payload(l));
+            }
+        }
+        4 => {
+            // ack with arbitrary ranges (huge, overlapping what we sent, malformed)
+            b.push(4);
+            b.extend(varint(seq));
+            let end = if rng.chance(1, 2) { rng.below(200) } else { rng.pick(fields) };
+            b.extend(varint(end));
+            b.extend(varint(if rng.chance(2, 3) { rng.below(end + 1) } else { rng.pick(fields) }));
+            let n = rng.pick(&[0u64, 1, 2, 5, 1 << 40]);
+            b.extend(varint(n));
+            for _ in 0..n.min(5) {
+                b.extend(varint(rng.pick(&[0u64, 1, 2, 7, 1 << 35])));
+                b.extend(varint(rng.pick(&[0u64, 1, 3, 1 << 35])));
+            }
+        }
+        _ => {
+            let n = rng.pick(&[0usize, 1, 2, 3, 7, 30, 1400]);
+            b = rng.bytes(n);
+            if !b.is_empty() && rng.chance(1, 2) {
+                b[0] = rng.pick(&[0u8, 1, 2, 3, 4, 5]);
+            }
+        }
+    }
+    if rng.chance(1, 8) && !b.is_empty() {
+        let cut = rng.below(b.len() as u64) as usize;
+        b.truncate(cut);
+    }
+    b
+}
+
+fn script_hostile(rng: &mut Rng, tier: Tier, ex: &mut dyn FnMut(&str) -> String) {
+    let small = rng.chance(1, 2);
+    let sc = if rng.chance(1, 2) { gen_chans(rng, small) } else { default_chans() };
+    let cc = if rng.chance(1, 2) { gen_chans(rng, small) } else { default_chans() };
+    let budget = rng.pick(&[60_000u64, 12_000, 2400]);
+    ex(&cfg_line(budget, &sc, &cc));
+    // victim pair c0/s100 and healthy pair c1/s101
+    for h in 0..2 {
+        ex(&format!("cli {}", h));
+        ex(&format!("add {}", 100 + h));
+        ex(&format!("setc {}", h));
+    }
+    let s_ids: Vec<u8> = sc.iter().map(|c| c.id).collect();
+    let c_ids: Vec<u8> = cc.iter().map(|c| c.id).collect();
+    let ticks = if tier == Tier::Quick { rng.range(2, 8) } else { rng.range(4, 20) };
+    let mut net = Net::new();
+    for tick in 0..ticks {
+        for h in 0..2u64 {
+            if rng.chance(2, 3) {
+                let c = rng.pick(&cc);
+                let m = rand_msg(rng, 1_000_000);
+                ex(&format!("send c{} {} {}", h, c.id, hex(&m)));
+            }
+            if rng.chance(2, 3) {
+                let c = rng.pick(&sc);
+                let m = rand_msg(rng, 1_000_000);
+                ex(&format!("send s{} {} {}", 100 + h, c.id, hex(&m)));
+            }
+        }
+        let dt = rng.pick(&[16_000u64, 100_000, 400_000, 3_100_000]);
+        ex(&format!("upd c0 {}", dt));
+        ex(&format!("upd c1 {}", dt));
+        ex(&format!("upd srv {}", dt));
+        for h in 0..2u64 {
+            let (c, s) = (format!("c{}", h), format!("s{}", 100 + h));
+            let loss = if h == 0 { 20 } else { 0 };
+            net.flush(rng, ex, &c, &s, tick, loss, 10, 20);
+            net.flush(rng, ex, &s, &c, tick, loss, 10, 20);
+        }
+        net.deliver_due(rng, ex, tick, true);
+        // hostile input against the victim pair (both directions), at any point of the session
+        let nh = rng.below(4);
+        for _ in 0..nh {
+            let to_server = rng.chance(1, 2);
+            let (to, chans) = if to_server { ("s100", &c_ids) } else { ("c0", &s_ids) };
+            match rng.below(5) {
+                0..=2 => {
+                    let b = hostile_packet(rng, chans);
+                    ex(&format!("raw {} {}", to, hex(&b)));
+                }
+                3 => {
+                    // mutated copy of something the peer really sent
+                    let from = if to_server { "c0" } else { "s100" };
+                    let n = *net.emitted.get(from).unwrap_or(&0);
+                    if n > 0 {
+                        let k = rng.below(n as u64);
+                        let m = match rng.below(3) {
+                            0 => format!("flip:{}", rng.below(200)),
+                            1 => format!("trunc:{}", rng.below(40)),
+                            _ => format!("xor:{}:{}", rng.below(16), rng.range(1, 255)),
+                        };
+                        ex(&format!("dlvm {} {} {} {}", to, from, k, m));
+                    }
+                }
+                _ => {
+                    // cross-delivery: a packet of the healthy pair (or of the same side) fed to the victim
+                    let from = rng.pick(&["c1", "s101", "c0", "s100"]);
+                    let n = *net.emitted.get(from).unwrap_or(&0);
+                    if n > 0 {
+                        ex(&format!("dlv {} {} {}", to, from, rng.below(n as u64)));
+                    }
+                }
+            }
+            ex(&format!("stat {}", to));
+            if rng.chance(1, 3) {
+                ex(&format!("dump {}", to));
+            }
+        }
+        for h in 0..2u64 {
+            for c in cc.iter() {
+                drain(ex, &format!("s{}", 100 + h), c.id, 4);
+            }
+            for c in sc.iter() {
+                drain(ex, &format!("c{}", h), c.id, 4);
+            }
+        }
+    }
+    // everything keeps working afterwards
+    for who in ["c0", "s100", "c1", "s101"] {
+        ex(&format!("dump {}", who));
+        ex(&format!("stat {}", who));
+    }
+    ex("ids");
+    for c in sc.iter() {
+        ex(&format!("avail s100 {}", c.id));
+        ex(&format!("avail s101 {}", c.id));
+    }
+}
+
+
+// ---------------------------------------------------------------------------------------------
+// E2 multi: several honest clients with independent fault schedules, broadcasts, one hostile
+// ---------------------------------------------------------------------------------------------
+fn script_multi(rng: &mut Rng, tier: Tier, ex: &mut dyn FnMut(&str) -> String) {
+    let sc = default_chans();
+    let cc = default_chans();
+    let budget = rng.pick(&[60_000u64, 12_000]);
+    ex(&cfg_line(budget, &sc, &cc));
+    let n = rng.range(2, 5);
+    for h in 0..n {
+        ex(&format!("cli {}", h));
+        ex(&format!("add {}", 100 + h));
+        ex(&format!("setc {}", h));
+    }
+    let ticks = if tier == Tier::Quick { rng.range(3, 10) } else { rng.range(5, 25) };
+    let mut net = Net::new();
+    let faults: Vec<(u64, u64, u64)> = (0..n).map(|_| (rng.pick(&[0u64, 20, 50]), rng.pick(&[0u64, 20]), rng.pick(&[0u64, 30]))).collect();
+    let victim = if rng.chance(1, 2) { Some(rng.below(n)) } else { None };
+    let mut sent_bytes = 0u64;
+    for tick in 0..ticks {
+        for h in 0..n {
+            if rng.chance(1, 2) {
+                let m = rand_msg(rng, 3000);
+                sent_bytes += m.len() as u64;
+                ex(&format!("send c{} {} {}", h, rng.pick(&[0, 1, 2]), hex(&m)));
+            }
+            if rng.chance(1, 3) {
+                let m = rand_msg(rng, 3000);
+                sent_bytes += m.len() as u64;
+                ex(&format!("send s{} {} {}", 100 + h, rng.pick(&[0, 1, 2]), hex(&m)));
+            }
+        }
+        if rng.chance(1, 2) {
+            ex("ids");
+            let m = rand_small(rng, 2000);
+            sent_bytes += m.len() as u64 * n;
+            if rng.chance(1, 2) {
+                ex(&format!("bcast {} {}", rng.pick(&[1, 2]), hex(&m)));
+            } else {
+                ex(&format!("bcastx {} {} {}", 100 + rng.below(n), rng.pick(&[1, 2]), hex(&m)));
+            }
+        }
+        let dt = rng.pick(&[50_000u64, 300_000, 301_000]);
+        ex(&format!("upd srv {}", dt));
+        for h in 0..n {
+            ex(&format!("upd c{} {}", h, dt));
+            let (c, s) = (format!("c{}", h), format!("s{}", 100 + h));
+            let f = faults[h as usize];
+            net.flush(rng, ex, &c, &s, tick, f.0, f.1, f.2);
+            net.flush(rng, ex, &s, &c, tick, f.0, f.1, f.2);
+        }
+        net.deliver_due(rng, ex, tick, true);
+        if let Some(v) = victim {
+            if rng.chance(1, 3) {
+                let b = hostile_packet(rng, &[0, 1, 2]);
+                ex(&format!("raw s{} {}", 100 + v, hex(&b)));
+            }
+        }
+        for h in 0..n {
+            for ch in 0..3u8 {
+                if rng.chance(1, 2) {
+                    drain(ex, &format!("s{}", 100 + h), ch, 3);
+                    drain(ex, &format!("c{}", h), ch, 3);
+                }
+            }
+        }
+    }
+    let mut t = ticks + 10;
+    net.deliver_due(rng, ex, t, false);
+    let need = (2 * sent_bytes / budget + 6).min(150);
+    for _ in 0..need {
+        t += 1;
+        ex("upd srv 301000");
+        for h in 0..n {
+            ex(&format!("upd c{} 301000", h));
+            let (c, s) = (format!("c{}", h), format!("s{}", 100 + h));
+            net.flush(rng, ex, &c, &s, t, 0, 0, 0);
+            net.flush(rng, ex, &s, &c, t, 0, 0, 0);
+        }
+        net.deliver_due(rng, ex, t, false);
+        for h in 0..n {
+            for ch in 0..3u8 {
+                drain(ex, &format!("s{}", 100 + h), ch, 10_000);
+                drain(ex, &format!("c{}", h), ch, 10_000);
+            }
+        }
+    }
+    for h in 0..n {
+        ex(&format!("stat c{}", h));
+        ex(&format!("stat s{}", 100 + h));
+    }
+    ex("note healed");
+}
+
+// ---------------------------------------------------------------------------------------------
+// E3: arbitrary public API call sequences on RenetServer / RenetClient
+// ---------------------------------------------------------------------------------------------
+fn script_api(rng: &mut Rng, tier: Tier, ex: &mut dyn FnMut(&str) -> String) {
+    let sc = default_chans();
+    let cc = default_chans();
+    ex(&cfg_line(60_000, &sc, &cc));
+    let n = if tier == Tier::Quick { rng.range(10, 50) } else { rng.range(20, 150) };
+    let mut handles: Vec<u64> = vec![];
+    let mut emitted: HashMap<String, usize> = HashMap::new();
+    for _ in 0..n {
+        let id = 100 + rng.below(3);
+        let h = id - 100;
+        match rng.below(22) {
+            0 | 1 => {
+                ex(&format!("add {}", id));
+            }
+            2 => {
+                ex(&format!("stat s{}", id));
+                ex(&format!("rem {}", id));
+            }
+            3 => {
+                ex(&format!("sdisc {}", id));
+            }
+            4 => {
+                if rng.chance(1, 3) {
+                    ex("sdiscall");
+                }
+            }
+            5 | 6 => {
+                ex(&format!("lnew {} {}", id, h));
+                if !handles.contains(&h) {
+                    handles.push(h);
+                }
+            }
+            7 => {
+                if handles.contains(&h) {
+                    ex(&format!("stat s{}", id));
+                    ex(&format!("stat c{}", h));
+                    ex(&format!("ldisc {} {}", id, h));
+                }
+            }
+            8 | 9 => {
+                if handles.contains(&h) {
+                    ex(&format!("lproc {} {}", id, h));
+                }
+            }
+            10 => {
+                if !handles.contains(&h) {
+                    ex(&format!("cli {}", h));
+                    handles.push(h);
+                }
+            }
+            11 => {
+                let m = rand_msg(rng, 3000);
+                ex(&format!("send s{} {} {}", id, rng.pick(&[0, 1, 2]), hex(&m)));
+            }
+            12 => {
+                if handles.contains(&h) {
+                    let m = rand_msg(rng, 3000);
+                    ex(&format!("send c{} {} {}", h, rng.pick(&[0, 1, 2]), hex(&m)));
+                }
+            }
+            13 => {
+                ex("ids");
+                let m = rand_small(rng, 40);
+                if rng.chance(1, 2) {
+                    ex(&format!("bcast {} {}", rng.pick(&[0, 1, 2]), hex(&m)));
+                } else {
+                    ex(&format!("bcastx {} {} {}", id, rng.pick(&[0, 1, 2]), hex(&m)));
+                }
+            }
+            14 => {
+                ex(&format!("recv s{} {}", id, rng.pick(&[0, 1, 2])));
+                if handles.contains(&h) {
+                    ex(&format!("recv c{} {}", h, rng.pick(&[0, 1, 2])));
+                }
+            }
+            15 => {
+                ex(&format!("upd srv {}", rng.pick(&[16_000u64, 400_000, 3_100_000])));
+                if handles.contains(&h) {
+                    ex(&format!("upd c{} {}", h, rng.pick(&[16_000u64, 400_000])));
+                }
+            }
+            16 => {
+                let who = format!("s{}", id);
+                let out = ex(&format!("flush {}", who));
+                *emitted.entry(who).or_insert(0) += pkts_count(&out);
+                if handles.contains(&h) {
+                    let who = format!("c{}", h);
+                    let out = ex(&format!("flush {}", who));
+                    *emitted.entry(who).or_insert(0) += pkts_count(&out);
+                }
+            }
+            17 => {
+                // deliver something previously emitted (possibly to a re-created connection)
+                let (to, from) = if rng.chance(1, 2) { (format!("s{}", id), format!("c{}", h)) } else { (format!("c{}", h), format!("s{}", id)) };
+                let k = *emitted.get(&from).unwrap_or(&0);
+                if k > 0 && (to.starts_with('s') || handles.contains(&h)) {
+                    ex(&format!("dlv {} {} {}", to, from, rng.below(k as u64)));
+                }
+            }
+            18 => {
+                if handles.contains(&h) {
+                    ex(&format!("{} {}", rng.pick(&["setc", "setg", "disc", "disct"]), h));
+                }
+            }
+            19 => {
+                ex(&format!("raw s{} {}", id, hex(&rand_bytes(rng, 12))));
+            }
+            _ => {
+                ex("ev");
+            }
+        }
+        if rng.chance(1, 3) {
+            ex(&format!("stat s{}", id));
+            if handles.contains(&h) {
+                ex(&format!("stat c{}", h));
+            }
+        }
+    }
+    for _ in 0..40 {
+        if ex("ev") == "none" {
+            break;
+        }
+    }
+    ex("ids");
+}
+
+// ---------------------------------------------------------------------------------------------
+// regression scenarios of the repaired defects (run first; each is a fixed op list)
+// ---------------------------------------------------------------------------------------------
+fn slice_pkt(ty: u8, seq: u64, ch: u8, id: u64, idx: u64, n: u64, payload: &[u8]) -> String {
+    let mut b = vec![ty];
+    b.extend(varint(seq));
+    b.push(ch);
+    b.extend(varint(id));
+    b.extend(varint(idx));
+    b.extend(varint(n));
+    b.extend(varint(payload.len() as u64));
+    b.extend(payload);
+    hex(&b)
+}
+
+const REGRESS_N: usize = 8;
+
+fn script_none(_rng: &mut Rng, _tier: Tier, _ex: &mut dyn FnMut(&str) -> String) {}
+
+fn regress_ops(case: usize) -> Vec<String> {
+    let d = cfg_line(60_000, &default_chans(), &default_chans());
+    let start = vec![d.clone(), "cli 0".to_string(), "add 100".to_string(), "setc 0".to_string()];
+    let full = vec![7u8; 1200];
+    let mut ops = start.clone();
+    match case {
+        // D3: slice_index >= num_slices with a full payload (both channel kinds)
+        0 => {
+            ops.push(format!("raw s100 {}", slice_pkt(2, 0, 2, 0, 5, 1, &full)));
+            ops.push("stat s100".into());
+            ops.push(format!("raw c0 {}", slice_pkt(3, 0, 0, 0, 5, 1, &full)));
+            ops.push("stat c0".into());
+        }
+        // D2: later slice announcing a larger count (reliable and unreliable)
+        1 => {
+            ops.push(format!("raw s100 {}", slice_pkt(2, 0, 2, 0, 0, 2, &full)));
+            ops.push(format!("raw s100 {}", slice_pkt(2, 1, 2, 0, 1, 1000, &[1u8; 10])));
+            ops.push("stat s100".into());
+            ops.push("dump s100".into());
+            ops.push(format!("raw c0 {}", slice_pkt(3, 0, 0, 0, 0, 2, &full)));
+            ops.push(format!("raw c0 {}", slice_pkt(3, 1, 0, 0, 1, 1000, &[1u8; 10])));
+            ops.push("stat c0".into());
+            ops.push("recv c0 0".into());
+            ops.push("dump c0".into());
+        }
+        // D1: unordered channel, duplicate slice of a message already consumed while an older one is missing
+        2 => {
+            let m0 = vec![1u8; 5];
+            let m1: Vec<u8> = (0..2500).map(|i| (i % 251) as u8).collect();
+            ops.push(format!("send c0 1 {}", hex(&m0)));
+            ops.push(format!("send c0 1 {}", hex(&m1)));
+            ops.push("upd c0 1000".into());
+            ops.push("flush c0".into()); // packets: slices of id1 (seq 0,1,2) then small id0 (seq 3)
+            ops.push("dlv s100 c0 0".into());
+            ops.push("dlv s100 c0 1".into());
+            ops.push("dlv s100 c0 2".into());
+            ops.push("recv s100 1".into()); // consumes id 1 while id 0 is missing
+            ops.push("dlv s100 c0 0".into()); // duplicate slice of the consumed message
+            ops.push("dump s100".into());
+            ops.push("dlv s100 c0 3".into());
+            ops.push("recv s100 1".into());
+            ops.push("upd srv 1000".into());
+            ops.push("flush s100".into());
+            ops.push("dlv c0 s100 0".into());
+            ops.push("stat c0".into());
+            ops.push("stat s100".into());
+            ops.push("note healed".into());
+            ops.push("upd c0 3100000".into());
+            ops.push("upd srv 3100000".into());
+            ops.push("avail c0 1".into());
+            ops.push("dump c0".into());
+            ops.push("dump s100".into());
+            ops.push("note quiescent".into());
+        }
+        // D15: a lower unreliable fragment id refreshed by duplicates shields a stale higher one
+        3 => {
+            ops.push(format!("raw c0 {}", slice_pkt(3, 0, 0, 0, 0, 2, &full)));
+            ops.push(format!("raw c0 {}", slice_pkt(3, 1, 0, 1, 0, 2, &full)));
+            ops.push("upd c0 2000000".into());
+            ops.push(format!("raw c0 {}", slice_pkt(3, 2, 0, 0, 0, 2, &full))); // refresh id 0 only
+            ops.push("upd c0 1500000".into()); // id 1 idle for 3.5 s, id 0 for 1.5 s
+            ops.push("dump c0".into());
+            ops.push("note stale-check".into());
+        }
+        // D16: descending every-other sequences insert ranges in front without bound
+        4 => {
+            let mut seqs: Vec<u64> = (0..800).map(|i| 2 * i).collect();
+            seqs.reverse();
+            for s in seqs {
+                let mut b = vec![1u8];
+                b.extend(varint(s));
+                b.push(0);
+                b.extend(0u16.to_be_bytes());
+                ops.push(format!("raw c0 {}", hex(&b)));
+            }
+            ops.push("flush c0".into());
+            ops.push("stat c0".into());
+            ops.push("dump c0".into());
+        }
+        // D13: disconnect_local_client after the server disconnected the connection first
+        5 => {
+            ops = vec![d.clone()];
+            ops.push("lnew 100 0".into());
+            ops.push("ev".into());
+            ops.push("sdisc 100".into());
+            ops.push("stat s100".into());
+            ops.push("stat c0".into());
+            ops.push("ldisc 100 0".into());
+            ops.push("ev".into());
+            ops.push("ev".into());
+        }
+        // honest-only variant of D16: burst delivered in reverse with every other packet lost
+        6 => {
+            for i in 0..700 {
+                ops.push(format!("send c0 0 {:02x}", i % 256));
+                ops.push("flush c0".into());
+            }
+            for i in (0..700).rev().step_by(2) {
+                ops.push(format!("dlv s100 c0 {}", i));
+            }
+            ops.push("flush s100".into());
+            ops.push("stat s100".into());
+        }
+        // packing threshold: first message whose serialised size exceeds SLICE_SIZE
+        _ => {
+            ops.push(format!("send c0 2 {}", hex(&vec![3u8; 1200])));
+            ops.push(format!("send c0 2 {}", hex(&vec![4u8; 1200])));
+            ops.push(format!("send c0 0 {}", hex(&vec![5u8; 1199])));
+            ops.push(format!("send c0 0 {}", hex(&vec![6u8; 1])));
+            ops.push("flush c0".into());
+            ops.push("stat c0".into());
+        }
+    }
+    ops
 }
 
 // ---------------------------------------------------------------------------------------------
@@ -460,6 +1033,46 @@ fn oracle_c16(ops: &[String], outs: &[String]) -> Option<OracleFail> {
 
 pub fn profiles() -> Vec<Profile> {
     vec![Profile {
+        name: "rn-regress",
+        props: &["C06", "C09", "C12", "C13", "C02"],
+        cases: |_| REGRESS_N,
+        new_world,
+        script: script_none,
+        nontrivial: |_| true,
+        keep: |_| 0,
+        fixed: Some(regress_ops),
+    },
+    Profile {
+        name: "rn-hostile",
+        props: &["C06", "C09", "C11"],
+        cases: |t| if t == Tier::Quick { 400 } else { 8000 },
+        new_world,
+        script: script_hostile,
+        nontrivial: |t| t.ops.iter().any(|o| o.starts_with("raw ") || o.starts_with("dlvm ")),
+        keep: keep_cfg,
+        fixed: None,
+    },
+    Profile {
+        name: "rn-api",
+        props: &["C12", "C06", "C11"],
+        cases: |t| if t == Tier::Quick { 500 } else { 10000 },
+        new_world,
+        script: script_api,
+        nontrivial: |t| t.outs.iter().any(|o| o.starts_with("disconnected ")),
+        keep: |_| 1,
+        fixed: None,
+    },
+    Profile {
+        name: "rn-multi",
+        props: &["C11", "C01", "C02", "C03"],
+        cases: |t| if t == Tier::Quick { 120 } else { 2000 },
+        new_world,
+        script: script_multi,
+        nontrivial: |t| t.ops.iter().any(|o| o.starts_with("bcast")) && t.outs.iter().any(|o| o.starts_with("msg ")),
+        keep: keep_cfg,
+        fixed: None,
+    },
+    Profile {
         name: "rn-wire",
         props: &["C16", "C13"],
         cases: |t| if t == Tier::Quick { 600 } else { 20000 },
@@ -467,15 +1080,17 @@ pub fn profiles() -> Vec<Profile> {
         script: script_wire,
         nontrivial: |t| t.outs.iter().any(|o| o.starts_with("SR ") || o.starts_with("SU ") || o.starts_with("RS ") || o.starts_with("US ") || o.starts_with("AK ")),
         keep: |_| 0,
+        fixed: None,
     },
     Profile {
         name: "rn-pair",
-        props: &["C01", "C02", "C03", "C08", "C09", "C13", "C14", "C15"],
+        props: &["C01", "C02", "C03", "C06", "C08", "C09", "C13", "C14", "C15"],
         cases: |t| if t == Tier::Quick { 300 } else { 4000 },
         new_world,
         script: script_pair,
         nontrivial: nontrivial_pair,
         keep: keep_cfg,
+        fixed: None,
     }]
 }
 
@@ -554,12 +1169,29 @@ fn reliable_oracle(ops: &[String], outs: &[String], kind: &str) -> Option<Oracle
     let mut submitted: HashMap<(String, u8), Vec<(String, bool)>> = HashMap::new();
     let mut obtained_n: HashMap<(String, u8), usize> = HashMap::new();
     let mut status: HashMap<String, String> = HashMap::new();
+    let mut connected_ids: Vec<String> = vec![];
+    // endpoints that were fed anything but their peer's genuine packets are outside the quantifier
+    let mut tainted: std::collections::HashSet<String> = Default::default();
     for (i, (op, out)) in ops.iter().zip(outs.iter()).enumerate() {
         let t: Vec<&str> = op.split(' ').collect();
         match t[0] {
             "cfg" => {
                 if let Some(c) = parse_cfg(op) {
                     cfg = c
+                }
+            }
+            "raw" | "dlvm" if t.len() > 1 => {
+                tainted.insert(t[1].to_string());
+                if let Some(p) = peer_of(t[1]) {
+                    tainted.insert(p);
+                }
+            }
+            "dlv" if t.len() == 4 => {
+                if peer_of(t[1]).as_deref() != Some(t[2]) {
+                    tainted.insert(t[1].to_string());
+                    if let Some(p) = peer_of(t[1]) {
+                        tainted.insert(p);
+                    }
                 }
             }
             "send" if t.len() == 4 => {
@@ -569,7 +1201,30 @@ fn reliable_oracle(ops: &[String], outs: &[String], kind: &str) -> Option<Oracle
                     }
                 }
             }
+            "ids" => {
+                // `ids [a,b] disc [c]`
+                if let Some(l) = out.strip_prefix("ids [").and_then(|r| r.split(']').next()) {
+                    connected_ids = l.split(',').filter(|x| !x.is_empty()).map(|x| x.to_string()).collect();
+                }
+            }
+            "bcast" | "bcastx" => {
+                let (ex_id, ch, m) = if t[0] == "bcast" && t.len() == 3 { ("", t[1], t[2]) } else if t.len() == 4 { (t[1], t[2], t[3]) } else { continue };
+                if let Ok(ch) = ch.parse::<u8>() {
+                    for id in connected_ids.iter() {
+                        if id == ex_id {
+                            continue;
+                        }
+                        let who = format!("s{}", id);
+                        if send_kind(&cfg, &who, ch).as_deref() == Some(kind) {
+                            submitted.entry((who, ch)).or_default().push((m.to_string(), false));
+                        }
+                    }
+                }
+            }
             "recv" if t.len() == 3 && out.starts_with("msg ") => {
+                if tainted.contains(t[1]) {
+                    continue;
+                }
                 let ch: u8 = t[2].parse().ok()?;
                 let sender = match peer_of(t[1]) {
                     Some(p) => p,
@@ -609,6 +1264,9 @@ fn reliable_oracle(ops: &[String], outs: &[String], kind: &str) -> Option<Oracle
                         Some(p) => p,
                         None => continue,
                     };
+                    if tainted.contains(sender) || tainted.contains(&recv) {
+                        continue;
+                    }
                     let ok_status = |w: &str| status.get(w).map(|s| s == "connected").unwrap_or(false);
                     if !ok_status(sender) || !ok_status(&recv) {
                         continue;
@@ -671,11 +1329,590 @@ fn oracle_c03(ops: &[String], outs: &[String]) -> Option<OracleFail> {
     None
 }
 
+
+// ---------------------------------------------------------------------------------------------
+// oracles for C06 C08 C09 C12 C13 C14 C15
+// ---------------------------------------------------------------------------------------------
+fn decode(hexs: &str) -> Option<WPacket> {
+    let b = unhex(hexs)?;
+    let mut oct = octets::Octets::with_slice(&b);
+    WPacket::from_bytes(&mut oct).ok()
+}
+
+fn flush_packets(out: &str) -> Vec<&str> {
+    let mut it = out.split(' ');
+    if it.next() != Some("pkts") {
+        return vec![];
+    }
+    it.next();
+    it.collect()
+}
+
+/// all `key=value` occurrences of `mem`/`max` pairs in a dump, per channel block
+fn dump_blocks(dump: &str) -> Vec<(String, String)> {
+    // blocks look like ` sr2{mem=…,max=…,…}`
+    let mut res = vec![];
+    let mut rest = dump;
+    while let Some(i) = rest.find('{') {
+        let name_start = rest[..i].rfind(' ').map(|x| x + 1).unwrap_or(0);
+        let name = rest[name_start..i].to_string();
+        let close = match matching_brace(&rest[i..]) {
+            Some(c) => i + c,
+            None => break,
+        };
+        res.push((name, rest[i + 1..close].to_string()));
+        rest = &rest[close + 1..];
+    }
+    res
+}
+
+fn matching_brace(s: &str) -> Option<usize> {
+    let mut depth = 0;
+    for (i, c) in s.char_indices() {
+        match c {
+            '{' => depth += 1,
+            '}' => {
+                depth -= 1;
+                if depth == 0 {
+                    return Some(i);
+                }
+            }
+            _ => {}
+        }
+    }
+    None
+}
+
+fn field<'a>(block: &'a str, key: &str) -> Option<&'a str> {
+    // fields are `key=value` separated by ',' at top level; list values are in [...]
+    let pat = format!("{}=", key);
+    let mut idx = 0;
+    loop {
+        let i = block[idx..].find(&pat)? + idx;
+        if i == 0 || block.as_bytes()[i - 1] == b',' {
+            let v = &block[i + pat.len()..];
+            if v.starts_with('[') {
+                let e = v.find(']')?;
+                return Some(&v[1..e]);
+            }
+            let e = v.find(',').unwrap_or(v.len());
+            return Some(&v[..e]);
+        }
+        idx = i + 1;
+    }
+}
+
+fn head_field<'a>(dump: &'a str, key: &str) -> Option<&'a str> {
+    let pat = format!("{}=", key);
+    let i = dump.find(&pat)?;
+    let v = &dump[i + pat.len()..];
+    if v.starts_with('[') {
+        let e = v.find(']')?;
+        Some(&v[1..e])
+    } else {
+        let e = v.find(' ').unwrap_or(v.len());
+        Some(&v[..e])
+    }
+}
+
+/// C06: no unwind on any call; accounted memory within [0, max]; statuses only move to
+/// disconnected-with-a-reason and stay; the bystander connection is not torn down by input aimed
+/// at the victim.
+fn oracle_c06(ops: &[String], outs: &[String]) -> Option<OracleFail> {
+    let mut status: HashMap<String, String> = HashMap::new();
+    for (i, (op, out)) in ops.iter().zip(outs.iter()).enumerate() {
+        if out == "panic" {
+            let kind = op.split(' ').next().unwrap_or("");
+            return fail(i, &format!("panic:{}", kind), format!("the implementation panicked on `{}`", &op[..op.len().min(160)]));
+        }
+        let t: Vec<&str> = op.split(' ').collect();
+        match t[0] {
+            "dump" if out != "notfound" && out != "bad-op" => {
+                for (name, b) in dump_blocks(out) {
+                    let mem: Option<u64> = field(&b, "mem").and_then(|x| x.parse().ok());
+                    let max: Option<u64> = field(&b, "max").and_then(|x| x.parse().ok());
+                    match (mem, max) {
+                        (Some(m), Some(x)) => {
+                            if m > x {
+                                return fail(i, "memory-out-of-budget", format!("{} {}: accounted memory {} exceeds the channel budget {} (wrapped or leaked)", t[1], name, m, x));
+                            }
+                        }
+                        _ => return fail(i, "dump-unparsable", format!("cannot read mem/max of block {} in dump", name)),
+                    }
+                }
+            }
+            "cli" | "lnew" if t.len() >= 2 => {
+                let h = if t[0] == "cli" { t[1] } else { t[2] };
+                status.remove(&format!("c{}", h));
+                if t[0] == "lnew" {
+                    // add_connection is a no-op when the id exists: status of s<id> may persist
+                }
+            }
+            "rem" if t.len() == 2 => {
+                status.remove(&format!("s{}", t[1]));
+            }
+            "ldisc" if t.len() == 3 => {
+                status.remove(&format!("s{}", t[1]));
+            }
+            "stat" if t.len() == 2 => {
+                if out == "notfound" {
+                    status.remove(t[1]);
+                    continue;
+                }
+                if let Some(prev) = status.get(t[1]) {
+                    if prev.starts_with("disconnected:") && prev != out {
+                        return fail(i, "disconnect-not-final", format!("{} was {} and is now {}", t[1], prev, out));
+                    }
+                }
+                status.insert(t[1].to_string(), out.clone());
+            }
+            _ => {}
+        }
+    }
+    // bystander pair of the hostile profile
+    let bystander_clean = !ops.iter().any(|o| {
+        let t: Vec<&str> = o.split(' ').collect();
+        match t[0] {
+            "raw" | "dlvm" => t.len() > 1 && (t[1] == "s101" || t[1] == "c1"),
+            "dlv" => t.len() > 2 && ((t[1] == "s101" && t[2] != "c1") || (t[1] == "c1" && t[2] != "s101")),
+            "rem" | "sdisc" | "sdiscall" | "disc" | "disct" | "lnew" | "ldisc" => true,
+            _ => false,
+        }
+    });
+    if bystander_clean && ops.iter().any(|o| o.starts_with("raw s100") || o.starts_with("raw c0") || o.starts_with("dlvm ")) && ops.iter().any(|o| o == "cli 1") {
+        for who in ["c1", "s101"] {
+            if let Some(st) = status.get(who) {
+                if st.contains("PacketDeserialization") || st.contains("ReceivedInvalidChannelId") || st.contains("InvalidSliceMessage") {
+                    return fail(ops.len() - 1, "bystander-disconnected", format!("{} (never fed hostile input) ended as {}", who, st));
+                }
+            }
+        }
+    }
+    None
+}
+
+/// C09: accounting is exact at every dump (empty channel ⇒ zero bytes accounted), incomplete
+/// unreliable fragments older than 3 s are gone, and at a quiescent point nothing is left over.
+fn oracle_c09(ops: &[String], outs: &[String]) -> Option<OracleFail> {
+    let mut healed_ok = false;
+    let mut status: HashMap<String, String> = HashMap::new();
+    let mut since_heal: Vec<usize> = vec![];
+    for (i, (op, out)) in ops.iter().zip(outs.iter()).enumerate() {
+        let t: Vec<&str> = op.split(' ').collect();
+        match t[0] {
+            "stat" if t.len() == 2 => {
+                status.insert(t[1].to_string(), out.clone());
+            }
+            "dump" if out != "notfound" && out != "bad-op" && out != "panic" && out != "dead" => {
+                let now: u64 = head_field(out, "now").and_then(|x| x.parse().ok()).unwrap_or(0);
+                for (name, b) in dump_blocks(out) {
+                    let mem: u64 = field(&b, "mem").and_then(|x| x.parse().ok()).unwrap_or(0);
+                    let max: u64 = field(&b, "max").and_then(|x| x.parse().ok()).unwrap_or(0);
+                    if mem > max {
+                        return fail(i, "memory-out-of-budget", format!("{} {}: accounted {} > budget {}", t[1], name, mem, max));
+                    }
+                    let empty = |k: &str| field(&b, k).map(|v| v.is_empty()).unwrap_or(true);
+                    let idle = if name.starts_with("sr") {
+                        empty("un")
+                    } else if name.starts_with("su") {
+                        empty("q")
+                    } else {
+                        empty("msgs") && empty("sl")
+                    };
+                    if idle && mem != 0 {
+                        return fail(i, "bytes-accounted-to-nothing", format!("{} {}: {} bytes accounted although the channel holds nothing", t[1], name, mem));
+                    }
+                    if name.starts_with("ru") {
+                        if let Some(last) = field(&b, "last") {
+                            for e in last.split(';').filter(|x| !x.is_empty()) {
+                                if let Some((id, tt)) = e.split_once('@') {
+                                    let tt: u64 = tt.parse().unwrap_or(0);
+                                    if now.saturating_sub(tt) >= 3_000_000_000 {
+                                        return fail(i, "stale-fragment-kept", format!("{} {}: fragment {} idle for {} ns is still accounted", t[1], name, id, now - tt));
+                                    }
+                                }
+                            }
+                        }
+                    }
+                }
+                if healed_ok {
+                    since_heal.push(i);
+                }
+            }
+            "note" if t.len() == 2 && t[1] == "healed" => {
+                healed_ok = !status.is_empty() && status.values().all(|s| s == "connected");
+                since_heal.clear();
+            }
+            "note" if t.len() == 2 && t[1] == "quiescent" && healed_ok => {
+                for &j in since_heal.iter() {
+                    let who = ops[j].split(' ').nth(1).unwrap_or("");
+                    for (name, b) in dump_blocks(&outs[j]) {
+                        let mem: u64 = field(&b, "mem").and_then(|x| x.parse().ok()).unwrap_or(0);
+                        if name.starts_with("rr") || name.starts_with("ru") || name.starts_with("su") {
+                            if mem != 0 {
+                                return fail(j, "leak-at-quiescence", format!("{} {}: {} bytes still accounted after everything was delivered, drained and 3 s passed", who, name, mem));
+                            }
+                        }
+                        if name.starts_with("sr") {
+                            let un_empty = field(&b, "un").map(|v| v.is_empty()).unwrap_or(true);
+                            if un_empty && mem != 0 {
+                                return fail(j, "leak-at-quiescence", format!("{} {}: {} bytes accounted with nothing unacknowledged", who, name, mem));
+                            }
+                        }
+                    }
+                }
+            }
+            _ => {}
+        }
+    }
+    None
+}
+
+/// C12: event stream = what the API calls imply (alternation per id, first stored reason),
+/// disconnected endpoints emit nothing, yield nothing, and keep their reason.
+fn oracle_c12(ops: &[String], outs: &[String]) -> Option<OracleFail> {
+    let mut present: std::collections::BTreeSet<String> = Default::default();
+    let mut expected: std::collections::VecDeque<String> = Default::default();
+    let mut last_stat: HashMap<String, String> = HashMap::new();
+    let mut disconnected: HashMap<String, String> = HashMap::new(); // endpoint object -> reason
+    let mut per_id_last: HashMap<String, bool> = HashMap::new(); // id -> last event was "connected"
+    for (i, (op, out)) in ops.iter().zip(outs.iter()).enumerate() {
+        if out == "panic" || out == "dead" {
+            return None; // judged by C06
+        }
+        let t: Vec<&str> = op.split(' ').collect();
+        match t[0] {
+            "add" | "lnew" if t.len() >= 2 => {
+                if present.insert(t[1].to_string()) {
+                    expected.push_back(format!("connected {}", t[1]));
+                    disconnected.remove(&format!("s{}", t[1]));
+                    last_stat.remove(&format!("s{}", t[1]));
+                }
+                if t[0] == "lnew" {
+                    disconnected.remove(&format!("c{}", t[2]));
+                    last_stat.remove(&format!("c{}", t[2]));
+                }
+            }
+            "cli" if t.len() == 2 => {
+                disconnected.remove(&format!("c{}", t[1]));
+                last_stat.remove(&format!("c{}", t[1]));
+            }
+            "rem" if t.len() == 2 => {
+                if present.remove(t[1]) {
+                    let st = last_stat.get(&format!("s{}", t[1])).cloned().unwrap_or_default();
+                    let reason = st.strip_prefix("disconnected:").unwrap_or("Transport").to_string();
+                    expected.push_back(format!("disconnected {} {}", t[1], reason));
+                    disconnected.remove(&format!("s{}", t[1]));
+                    last_stat.remove(&format!("s{}", t[1]));
+                }
+            }
+            "ldisc" if t.len() == 3 => {
+                let cst = last_stat.get(&format!("c{}", t[2])).cloned().unwrap_or_default();
+                if !cst.starts_with("disconnected:") {
+                    if present.remove(t[1]) {
+                        let st = last_stat.get(&format!("s{}", t[1])).cloned().unwrap_or_default();
+                        let reason = st.strip_prefix("disconnected:").unwrap_or("DisconnectedByClient").to_string();
+                        expected.push_back(format!("disconnected {} {}", t[1], reason));
+                        disconnected.remove(&format!("s{}", t[1]));
+                        last_stat.remove(&format!("s{}", t[1]));
+                    }
+                    last_stat.insert(format!("c{}", t[2]), "disconnected:DisconnectedByClient".into());
+                }
+            }
+            "ev" => {
+                if out == "none" {
+                    if let Some(e) = expected.front() {
+                        return fail(i, "event-missing", format!("expected event `{}` but the queue is empty", e));
+                    }
+                } else {
+                    match expected.pop_front() {
+                        None => return fail(i, "event-unexpected", format!("event `{}` without a cause", out)),
+                        Some(e) => {
+                            if &e != out {
+                                let sig = if e.split(' ').take(2).collect::<Vec<_>>() == out.split(' ').take(2).collect::<Vec<_>>() { "event-wrong-reason" } else { "event-wrong" };
+                                return fail(i, sig, format!("expected event `{}`, got `{}`", e, out));
+                            }
+                        }
+                    }
+                    let p: Vec<&str> = out.split(' ').collect();
+                    let is_conn = p[0] == "connected";
+                    let prev = per_id_last.insert(p[1].to_string(), is_conn);
+                    match (prev, is_conn) {
+                        (None, false) | (Some(false), false) => return fail(i, "event-alternation", format!("`{}` without a preceding connect", out)),
+                        (Some(true), true) => return fail(i, "event-alternation", format!("`{}` twice without a disconnect between", out)),
+                        _ => {}
+                    }
+                }
+            }
+            "stat" if t.len() == 2 => {
+                if out == "notfound" || out == "bad-op" {
+                    continue;
+                }
+                if let Some(r) = disconnected.get(t[1]) {
+                    if out != r {
+                        return fail(i, "disconnect-not-final", format!("{} was {} and is now {}", t[1], r, out));
+                    }
+                }
+                if out.starts_with("disconnected:") {
+                    disconnected.insert(t[1].to_string(), out.clone());
+                }
+                last_stat.insert(t[1].to_string(), out.clone());
+            }
+            "flush" if t.len() == 2 => {
+                if disconnected.contains_key(t[1]) && out != "pkts 0" && out != "notfound" {
+                    return fail(i, "disconnected-emits", format!("{} is disconnected but emitted packets", t[1]));
+                }
+            }
+            "recv" if t.len() == 3 => {
+                if disconnected.contains_key(t[1]) && out.starts_with("msg ") {
+                    return fail(i, "disconnected-yields", format!("{} is disconnected but yielded a message", t[1]));
+                }
+            }
+            _ => {}
+        }
+    }
+    None
+}
+
+/// C13: every emitted packet ≤ 1300 bytes, serialisation never fails.
+fn oracle_c13(ops: &[String], outs: &[String]) -> Option<OracleFail> {
+    for (i, (op, out)) in ops.iter().zip(outs.iter()).enumerate() {
+        if op.starts_with("flush ") {
+            for p in flush_packets(out) {
+                if p.len() > 2600 {
+                    return fail(i, "packet-too-long", format!("{} emitted a {}-byte packet (> 1300)", &op[6..], p.len() / 2));
+                }
+            }
+        }
+        if op.starts_with("stat ") && out.contains("PacketSerialization") {
+            return fail(i, "serialization-failed", format!("{} disconnected itself: {}", &op[5..], out));
+        }
+    }
+    None
+}
+
+fn payload_bytes(p: &WPacket) -> u64 {
+    match p {
+        WPacket::SmallReliable { messages, .. } => messages.iter().map(|(_, m)| m.len() as u64).sum(),
+        WPacket::SmallUnreliable { messages, .. } => messages.iter().map(|m| m.len() as u64).sum(),
+        WPacket::ReliableSlice { slice, .. } | WPacket::UnreliableSlice { slice, .. } => slice.payload.len() as u64,
+        WPacket::Ack { .. } => 0,
+    }
+}
+
+/// C14: payload bytes of one flush ≤ available_bytes_per_tick.
+fn oracle_c14(ops: &[String], outs: &[String]) -> Option<OracleFail> {
+    let mut budget = u64::MAX;
+    for (i, (op, out)) in ops.iter().zip(outs.iter()).enumerate() {
+        if let Some(c) = parse_cfg(op) {
+            budget = c.budget;
+        }
+        if op.starts_with("flush ") {
+            let mut sum = 0u64;
+            for p in flush_packets(out) {
+                match decode(p) {
+                    Some(pk) => sum += payload_bytes(&pk),
+                    None => return fail(i, "emitted-undecodable", format!("{} emitted a packet its own decoder rejects", &op[6..])),
+                }
+            }
+            if sum > budget {
+                return fail(i, "over-budget", format!("{} carried {} payload bytes in one flush, budget {}", &op[6..], sum, budget));
+            }
+        }
+    }
+    None
+}
+
+/// C15 (not-early part + never-after-release): consecutive transmissions of the same reliable
+/// message / slice are at least resend_time apart on the sender's clock.
+fn oracle_c15(ops: &[String], outs: &[String]) -> Option<OracleFail> {
+    let mut cfg = Cfg::default();
+    let mut clock: HashMap<String, u64> = HashMap::new(); // endpoint -> µs
+    let mut last_tx: HashMap<(String, u8, u64, i64), u64> = HashMap::new();
+    let mut srv_clock = 0u64;
+    let mut born: HashMap<String, u64> = HashMap::new(); // s<id> creation offset on the server clock
+    for (i, (op, out)) in ops.iter().zip(outs.iter()).enumerate() {
+        let t: Vec<&str> = op.split(' ').collect();
+        match t[0] {
+            "cfg" => {
+                if let Some(c) = parse_cfg(op) {
+                    cfg = c
+                }
+            }
+            "add" if t.len() == 2 => {
+                born.entry(format!("s{}", t[1])).or_insert(srv_clock);
+            }
+            "rem" | "raw" | "dlvm" | "lnew" | "lproc" => return None, // other engines
+            "upd" if t.len() == 3 => {
+                let us: u64 = t[2].parse().unwrap_or(0);
+                if t[1] == "srv" {
+                    srv_clock += us;
+                } else {
+                    *clock.entry(t[1].to_string()).or_insert(0) += us;
+                }
+            }
+            "flush" if t.len() == 2 => {
+                let who = t[1];
+                let now = if who.starts_with('s') { srv_clock - born.get(who).copied().unwrap_or(0) } else { *clock.get(who).unwrap_or(&0) };
+                for p in flush_packets(out) {
+                    let pk = match decode(p) {
+                        Some(p) => p,
+                        None => continue,
+                    };
+                    let mut items: Vec<(u8, u64, i64)> = vec![];
+                    match &pk {
+                        WPacket::SmallReliable { channel_id, messages, .. } => {
+                            for (id, _) in messages {
+                                items.push((*channel_id, *id, -1));
+                            }
+                        }
+                        WPacket::ReliableSlice { channel_id, slice, .. } => items.push((*channel_id, slice.message_id, slice.slice_index as i64)),
+                        _ => {}
+                    }
+                    for (ch, id, sl) in items {
+                        let list = if who.starts_with('c') { &cfg.client } else { &cfg.server };
+                        let resend = list.iter().find(|c| c.0 == ch).map(|c| c.3).unwrap_or(0);
+                        let key = (who.to_string(), ch, id, sl);
+                        if let Some(prev) = last_tx.get(&key) {
+                            if now - prev < resend {
+                                return fail(i, "retransmitted-early", format!("{} channel {} message {} slice {}: retransmitted after {} µs, resend_time {} µs", who, ch, id, sl, now - prev, resend));
+                            }
+                        }
+                        last_tx.insert(key, now);
+                    }
+                }
+            }
+            _ => {}
+        }
+    }
+    None
+}
+
+/// C08: (a) every sequence number in an endpoint's pending acks was really delivered to it;
+/// (b) a reliable message leaves the sender's unacked set only after packets carrying it (every
+/// slice of it) were delivered to the peer endpoint.
+fn oracle_c08(ops: &[String], outs: &[String]) -> Option<OracleFail> {
+    let mut hist: HashMap<String, Vec<String>> = HashMap::new();
+    let mut got_seq: HashMap<String, std::collections::HashSet<u64>> = HashMap::new();
+    // delivered content per receiving endpoint: (ch, id, slice or -1)
+    let mut got_item: HashMap<String, std::collections::HashSet<(u8, u64, i64)>> = HashMap::new();
+    // what each sender ever emitted per (ch,id): number of slices (0 = small)
+    let mut shape: HashMap<(String, u8, u64), u64> = HashMap::new();
+    for (i, (op, out)) in ops.iter().zip(outs.iter()).enumerate() {
+        let t: Vec<&str> = op.split(' ').collect();
+        match t[0] {
+            "raw" | "dlvm" | "rem" | "lnew" | "lproc" => return None, // judged on honest-pair traces only
+            "flush" if t.len() == 2 => {
+                for p in flush_packets(out) {
+                    hist.entry(t[1].to_string()).or_default().push(p.to_string());
+                    match decode(p) {
+                        Some(WPacket::SmallReliable { channel_id, messages, .. }) => {
+                            for (id, _) in messages {
+                                shape.insert((t[1].to_string(), channel_id, id), 0);
+                            }
+                        }
+                        Some(WPacket::ReliableSlice { channel_id, slice, .. }) => {
+                            shape.insert((t[1].to_string(), channel_id, slice.message_id), slice.num_slices as u64);
+                        }
+                        _ => {}
+                    }
+                }
+            }
+            "dlv" if t.len() == 4 && out == "ok" => {
+                let k: usize = t[3].parse().unwrap_or(usize::MAX);
+                if let Some(p) = hist.get(t[2]).and_then(|h| h.get(k)) {
+                    if let Some(pk) = decode(p) {
+                        got_seq.entry(t[1].to_string()).or_default().insert(pk.sequence());
+                        let set = got_item.entry(t[1].to_string()).or_default();
+                        match pk {
+                            WPacket::SmallReliable { channel_id, messages, .. } => {
+                                for (id, _) in messages {
+                                    set.insert((channel_id, id, -1));
+                                }
+                            }
+                            WPacket::ReliableSlice { channel_id, slice, .. } => {
+                                set.insert((channel_id, slice.message_id, slice.slice_index as i64));
+                            }
+                            _ => {}
+                        }
+                    }
+                }
+            }
+            "dump" if out.starts_with("seq=") => {
+                let who = t[1];
+                // (a)
+                if let Some(acks) = head_field(out, "acks") {
+                    let got = got_seq.get(who);
+                    for r in acks.split(';').filter(|x| !x.is_empty()) {
+                        if let Some((a, b)) = r.split_once('-') {
+                            let (a, b): (u64, u64) = (a.parse().unwrap_or(0), b.parse().unwrap_or(0));
+                            if b - a > 100_000 {
+                                continue;
+                            }
+                            for s in a..b {
+                                if !got.map(|g| g.contains(&s)).unwrap_or(false) {
+                                    return fail(i, "acks-unreceived-sequence", format!("{} holds sequence {} in its pending acks but no packet with that sequence was delivered to it", who, s));
+                                }
+                            }
+                        }
+                    }
+                }
+                // (b)
+                let peer = match peer_of(who) {
+                    Some(p) => p,
+                    None => continue,
+                };
+                for (name, b) in dump_blocks(out) {
+                    if !name.starts_with("sr") {
+                        continue;
+                    }
+                    let ch: u8 = name[2..].parse().unwrap_or(0);
+                    let next: u64 = field(&b, "next").and_then(|x| x.parse().ok()).unwrap_or(0);
+                    let un: std::collections::HashSet<u64> = field(&b, "un").unwrap_or("").split(';').filter(|x| !x.is_empty()).filter_map(|e| e.split(':').next()?.parse().ok()).collect();
+                    let empty = std::collections::HashSet::new();
+                    let got = got_item.get(&peer).unwrap_or(&empty);
+                    for id in 0..next {
+                        if un.contains(&id) {
+                            continue;
+                        }
+                        match shape.get(&(who.to_string(), ch, id)) {
+                            None => return fail(i, "released-never-sent", format!("{} released message {} of channel {} that it never transmitted", who, id, ch)),
+                            Some(0) => {
+                                if !got.contains(&(ch, id, -1)) {
+                                    return fail(i, "released-before-delivery", format!("{} released message {} of channel {} although no packet carrying it was handed to {}", who, id, ch, peer));
+                                }
+                            }
+                            Some(n) => {
+                                for sl in 0..*n {
+                                    if !got.contains(&(ch, id, sl as i64)) {
+                                        return fail(i, "released-before-delivery", format!("{} released sliced message {} of channel {} although slice {} was never handed to {}", who, id, ch, sl, peer));
+                                    }
+                                }
+                            }
+                        }
+                    }
+                }
+            }
+            _ => {}
+        }
+    }
+    None
+}
+
 pub fn oracles() -> Vec<Oracle> {
     vec![
-        Oracle { prop: "C01", name: "ordered-prefix", engines: &["rn-pair"], check: oracle_c01 },
-        Oracle { prop: "C02", name: "unordered-once", engines: &["rn-pair"], check: oracle_c02 },
+        Oracle { prop: "C01", name: "ordered-prefix", engines: &["rn-pair", "rn-multi"], check: oracle_c01 },
+        Oracle { prop: "C02", name: "unordered-once", engines: &["rn-pair", "rn-multi", "rn-regress"], check: oracle_c02 },
         Oracle { prop: "C03", name: "integrity", engines: &["rn-pair"], check: oracle_c03 },
         Oracle { prop: "C16", name: "roundtrip", engines: &["rn-wire"], check: oracle_c16 },
+        Oracle { prop: "C06", name: "no-panic-bounded", engines: &["rn-"], check: oracle_c06 },
+        Oracle { prop: "C09", name: "accounting", engines: &["rn-pair", "rn-hostile", "rn-regress"], check: oracle_c09 },
+        Oracle { prop: "C12", name: "finality-events", engines: &["rn-api", "rn-regress", "rn-hostile"], check: oracle_c12 },
+        Oracle { prop: "C13", name: "packet-size", engines: &["rn-pair", "rn-regress", "rn-multi", "rn-hostile"], check: oracle_c13 },
+        Oracle { prop: "C14", name: "budget", engines: &["rn-pair", "rn-multi"], check: oracle_c14 },
+        Oracle { prop: "C15", name: "resend-timing", engines: &["rn-pair"], check: oracle_c15 },
+        Oracle { prop: "C08", name: "release-after-delivery", engines: &["rn-pair"], check: oracle_c08 },
+        Oracle { prop: "C11", name: "isolation-ordered", engines: &["rn-multi"], check: oracle_c01 },
+        Oracle { prop: "C11", name: "isolation-unordered", engines: &["rn-multi"], check: oracle_c02 },
     ]
 }
